@@ -30,8 +30,8 @@ FAMILIES = {
 }
 # property -> families whose judges print verdicts for it
 PROPS = {
-    # (the merge, links and reader judges also print C03/C04 verdicts; those families are run by their own properties)
-    "C03": ["tree", "clone", "links", "compose"], "C04": ["tree", "clone", "compose"], "C05": ["values"], "C06": ["tree", "values", "card", "merge", "links", "compose"],
+    # (the links and reader judges also print C03/C04 verdicts; those families are run by their own properties; the merge family also serves C04: a merge may not produce two siblings of one name)
+    "C03": ["tree", "clone", "links", "compose"], "C04": ["tree", "clone", "compose", "merge"], "C05": ["values"], "C06": ["tree", "values", "card", "merge", "links", "compose"],
     "C09": ["card"],
     "C14": ["paths"],
     "C11": ["clone", "values"],
